@@ -82,6 +82,12 @@ def programs(tier):
     out.append(('in-name', doc({'tag': 'p', 'i18n_translate': '', 'children': [
         'a ', {'tag': 'b', 'i18n_name': 'n', 'children': ['pre ', {'tag': 'span', 'onerror': fb2, 'children': ['q', L(0)]}]},
         ' c ', {'tag': 'i', 'onerror': fb3, 'children': [L(1)]}]}), o3(0, 1)))
+    # strict=False: an expression that does not compile raises when it is reached -- inside a guarded element
+    # that is a failure like any other
+    out.append(('nonstrict-invalid-expression', doc({'tag': 'a', 'static': [['id', 'x']], 'onerror': fb, 'children': [
+        'p', {'interp': {'py': '1 +', 'site': 0}}, 'q']}, 'mid', {'tag': 'b', 'onerror': fb2, 'condition': py('cv'),
+                                                                  'children': [{'interp': {'py': '2 +', 'site': 1}}]}),
+        [['cv', 'bool', 0]]))
     if tier != 'quick':
         out.append(('nested3', doc({'tag': 'a', 'onerror': fb, 'children': [
             'A1', {'tag': 'b', 'onerror': fb2, 'children': [
@@ -199,8 +205,10 @@ def plan(tier, seed):
     quick = tier == 'quick'
     jobs = []
     for label, prog, vars_ in programs(tier):
-        jobs.append({'prog': prog, 'vars': vars_, 'label': label, 'handler': True,
-                     'i18n': label.startswith('in-')})
+        j = {'prog': prog, 'vars': vars_, 'label': label, 'handler': True, 'i18n': label.startswith('in-')}
+        if label.startswith('nonstrict'):
+            j.update({'handler': False, 'options': {'strict': False}})
+        jobs.append(j)
     for label, prog, vars_ in generated(24 if quick else 400, seed):
         jobs.append({'prog': prog, 'vars': vars_, 'label': label, 'handler': True, 'i18n': False})
     single = jobs[0]
